@@ -35,7 +35,7 @@ FUNCS = [
 TRUSTED = [
     "ASSUMED contract of torch.split(t, s, dim): returns ceil(n_dim/s) views of t, chunk k covering [k s, min((k+1) s, n_dim)) along dim, all other dims untouched, in order (validated natively on real tensors, bounded)",
     "ASSUMED contracts of Tensor.view (legal iff contiguous and numel equal; same storage), Tensor.detach (same storage, same box), _foreach_add_ on views writes through to the storage",
-    "the product of per-dimension interval partitions is a partition of the index box (one-line textbook fact, cited)",
+    "the product of per-dimension interval partitions is a partition of the index box: machine-checked by Lean 4 on every run (lemmas/C05ProductPartition.lean)",
     "number of chunks per dimension enumerated in {1,2,3} for the fold structure of multi_dim_split (extents and split size symbolic); the partition itself is the LIA lemma for all n, s",
     "parameters are contiguous (otherwise view() raises in the real code) and every extent is >= 1",
 ]
@@ -44,7 +44,7 @@ EXPLANATION = "orders 0..4 enumerated (the property's domain), every extent, thr
 
 
 def cases(tier):
-    cs = [f"merge/o{o}" for o in range(0, 5)] + ["lemma/chunking"]
+    cs = [f"merge/o{o}" for o in range(0, 5)] + ["lemma/chunking", "lemma/product-of-partitions-lean"]
     for o in range(0, 5):
         maxc = 3 if (tier != "quick" or o <= 3) else 2
         for counts in itertools.product(range(1, maxc + 1), repeat=o):
@@ -426,6 +426,12 @@ def run_case(case, tier, seed):
         return _merge_case(case)
     if case.startswith("split/"):
         return _split_case(case)
+    if case == "lemma/product-of-partitions-lean":
+        from vlib.lean import lean_obligation
+        return [lean_obligation(f"lemma:product-partition/per-dimension-partitions-give-a-partition-of-the-index-box[{case}]", "lemma:product-partition",
+                                "C05ProductPartition.lean", ["C05.product_of_partitions", "C05.boxes_disjoint"], case=case,
+                                text="Lean 4: if every index of every dimension lies in exactly one chunk of that dimension, every multi-index lies in exactly one product box "
+                                     "(lifts the 1-D chunking lemma to multi_dim_split's blocks; specification-side mathematics)")]
     if case.startswith("lemma/"):
         return _lemma_case(case)
     return _blocking_case(case)
